@@ -967,7 +967,7 @@ Error RALocalAllocator::alloc_instruction(InstNode* node) noexcept {
 
               for (i = 0; i < consecutive_count; i++) {
                 uint32_t consecutive_index = reg_index + i;
-                if (!Support::bit_test(allocable_regs, consecutive_index)) {
+                if (consecutive_index >= 32u || !Support::bit_test(allocable_regs, consecutive_index)) {
                   score = 0;
                   break;
                 }
